@@ -30,7 +30,7 @@ func init() {
 			}
 			return 4
 		},
-		Cases:       func(r *obs.Run) int { return r.Share(r.Pick(1600, 40000)) },
+		Cases:       func(r *obs.Run) int { return r.Share(r.Pick(4000, 40000)) },
 		Case:        c01Case,
 		MinDistinct: func(t string) int { return 800 },
 		Floors: func(string) map[string]int64 {
